@@ -449,6 +449,12 @@ func attemptReplay(p *Prog, prop string, o *Obligation) ReplayResult {
 	extra := replayImports[pkgDir]
 	b.WriteString(extra)
 	b.WriteString(")\n\nvar _ = math.NaN\nvar _ = big.NewRat\nvar _ = strings.Split\nvar _ unsafe.Pointer\n")
+	if strings.Contains(extra, "/core\"") {
+		b.WriteString("var _ core.Strategy\n")
+	}
+	if strings.Contains(extra, "\"context\"") {
+		b.WriteString("var _ = context.Background\n")
+	}
 	b.WriteString(replaySupport)
 	b.WriteString("\nfunc TestGcvReplay(t *testing.T) {\n\tdefer func() {\n\t\tif r := recover(); r != nil {\n\t\t\tfmt.Printf(\"GCV-PANIC %v\\n\", r)\n\t\t}\n\t}()\n")
 	b.WriteString("\tobj := " + ctor + "\n")
